@@ -43,7 +43,9 @@ class C03(Spec):
             'seed, group_size 1..n+1 incl. non-divisors, n+5 and 1000; keep_complete_waveforms=False also on the blocked-random '
             'class), drained in random chunkings and popped again afterwards; half of the random cases re-spelled by the '
             'caller (see C02: constructor routes, extend() broadcasting, argument types, metadata, explicit durations, '
-            'clone, bystander queue, meddling caller); a scale stream (2000-3001 trials of one stimulus, 40 stimuli); '
+            'clone, bystander queue, meddling caller, one scratch source object re-filled before each append); a shared-source '
+            'stream (all stimuli built in one scratch ndarray / one FixedWaveform / one enveloped-tone factory whose carrier '
+            'frequency is stepped, and one unchanged object appended under two keys: each key must play its own waveform); a scale stream (2000-3001 trials of one stimulus, 40 stimuli); '
             'thorough adds every (policy/option, <=4 stimuli, trials<=3) combination. Non-trivial = >= 2 stimuli with '
             'unequal trial counts or a partial last group.')
     exhaustive_note = {
@@ -92,6 +94,25 @@ class C03(Spec):
                 c['ops'] = [['pop', n] for n in rng.chunks(drain(c), max_parts=rng.choice([1, 3, 10]))] \
                     + [['pop', 6], ['pop', 1]]
             yield c
+        # the caller builds all its stimuli in one scratch object (an array re-filled in place, one factory whose
+        # array / carrier frequency is stepped) and appends that object again and again, or appends one unchanged
+        # object under two keys: every key must present the waveform the object held when IT was appended
+        for it in range(40 if tier == 'quick' else 800):
+            nst = rng.randint(2, 6)
+            c = {'kind': 'shared-source', 'fs': rng.choice(QC.FS_LIST), 't0': rng.choice([0, 0.5]), 'share': 'scratch'}
+            c.update(QC.policy_fields(rng.choice(QC.POLICIES), rng, nst))
+            c.pop('build', None)
+            c['stims'] = QC.shared_stims(rng, nst, max_len=7, max_trials=3)
+            if it % 5 == 4:
+                del c['share']         # only the twice-appended unchanged object
+                if not any(st.get('same_as') is not None for st in c['stims']):
+                    c['stims'][-1] = dict(c['stims'][0], trials=rng.randint(1, 3), same_as=0)
+            if it % 3 == 1:
+                c['build'] = 'pos'
+            if it % 4 == 3:
+                c['meddle'] = 1
+            c['ops'] = [['pop', n] for n in rng.chunks(drain(c), max_parts=rng.choice([1, 3, 10]))] + [['pop', 6], ['pop', 1]]
+            yield c
         # scale: thousands of trials of one stimulus next to single trials of others; many stimuli
         for it in range(3 if tier == 'quick' else 14):
             nst = rng.choice([2, 3, 40])
@@ -133,6 +154,10 @@ class C03(Spec):
         seq = [a[0] for a in tr.added]
         cnt = [seq.count(k) for k in range(n)]
         name = QC.policy_name(c)
+        # "presents every stimulus": what a notified trial plays is the waveform queued under its key
+        f = QC.waveform_failure(tr, QC.total_pop(c))
+        if f:
+            return f
         # the queue must have run dry within the drain
         empties = [i for i, s in enumerate(tr.steps) if s['empty']]
         if not empties:
